@@ -192,6 +192,8 @@ def _headers(fn):
         out.append(('match', st.subject))
         for c in st.cases:
           body(c.body)
+      elif isinstance(st, (ast.Nonlocal, ast.Global)):
+        continue       # a declaration, it names variables as strings
       else:
         out.append(('s', st))
   body(fn.body)
@@ -238,11 +240,21 @@ def _h(s):
   return hashlib.sha1(s.encode('utf-8')).hexdigest()[:10]
 
 
+def nested_names(fn):
+  """names bound (as locals or parameters) by functions nested in fn."""
+  out = set()
+  for x in ast.walk(fn):
+    if isinstance(x, FUNC) and x is not fn:
+      out |= set(bound_names(x)) | set(params(x))
+  return out
+
+
 def fingerprints(fn, wanted=None):
   """{local name: sorted list of context hashes}."""
   ps = params(fn)
   pidx = {p: i for i, p in enumerate(ps)}
   locs = set(bound_names(fn))
+  inner = nested_names(fn) - locs - set(ps)
   fp = collections.defaultdict(list)
   for kind, node in _headers(fn):
     names, shadowed = _names(node)
@@ -264,6 +276,8 @@ def fingerprints(fn, wanted=None):
             x.id = 'L__'
           elif orig in pidx:
             x.id = 'P%d__' % pidx[orig]
+          elif orig in inner:
+            x.id = 'N__'
           else:
             x.id = orig
         try:
@@ -284,6 +298,7 @@ def body_fingerprint(fn):
   ps = params(fn)
   pidx = {p: i for i, p in enumerate(ps)}
   locs = set(bound_names(fn))
+  inner = nested_names(fn) - locs - set(ps)
   out = []
   for kind, node in _headers(fn):
     names, shadowed = _names(node)
@@ -297,6 +312,8 @@ def body_fingerprint(fn):
           x.id = 'L__'
         elif orig in pidx:
           x.id = 'P__'
+        elif orig in inner:
+          x.id = 'N__'
         elif orig == fn.name:
           x.id = 'SELF__'
       try:
